@@ -8,6 +8,8 @@ import (
 	"golang.org/x/tools/go/packages"
 )
 
+type packagesPackage = packages.Package
+
 func (c *Ctx) pkgRel(rel string) *packages.Package {
 	if rel == "" {
 		return c.PkgBy[modPath]
